@@ -52,6 +52,12 @@ Theorem C07_source_bounds_are_the_proved_bounds : forall b X, 1 < b ->
   jb_sup_src b X = jb_sup b X /\ jb_binf_src b X = jb_binf b X.
 Proof. intros b X Hb. exact (conj (jb_sup_src_ok b X Hb) (jb_binf_src_ok b X Hb)). Qed.
 
+(* the coefficient of the j-th exponential increment and the register before flooring, as the source text of
+   SetSketcher::sketch writes them, are the formulas the register-law theorems are stated on *)
+Theorem C07_source_register_law_is_the_proved_law : forall a m j lnb x, 0 < a -> j < m -> 0 < lnb ->
+  ss_gap_src a m j = ss_gap a m j /\ ss_reg_real_src lnb x = ss_reg_real lnb x.
+Proof. intros a m j lnb x Ha Hj Hl. exact (conj (ss_gap_src_ok a m j Ha Hj) (ss_reg_real_src_ok lnb x Hl)). Qed.
+
 Print Assumptions C07_no_order_assertion.
 Print Assumptions C07_bounds_ordered.
 Print Assumptions C07_bounds_gap.
@@ -62,3 +68,4 @@ Print Assumptions C07_register_threshold.
 Print Assumptions C07_register_antitone.
 Print Assumptions C07_estimator_is_match_fraction.
 Print Assumptions C07_source_bounds_are_the_proved_bounds.
+Print Assumptions C07_source_register_law_is_the_proved_law.
